@@ -545,6 +545,16 @@ def fini_toplevel(
 
         targets = []
         for param in ctx.env.query_params:
+            if isinstance(param, irast.Global) and param.has_present_arg:
+                # The companion "present" argument of a global is bound
+                # by the server whenever the global is, so it has to be
+                # declared too if the global ended up unused.
+                present = ctx.argmap[param.name + "present__"]
+                if present.index not in used:
+                    targets.append(pgast.ResTarget(val=pgast.TypeCast(
+                        arg=pgast.ParamRef(number=present.index),
+                        type_name=pgast.TypeName(name=('bool',)),
+                    )))
             pgparam = ctx.argmap[param.name]
             if pgparam.index in used or param.sub_params:
                 continue
